@@ -41,7 +41,7 @@ def load_catalog():
 
 
 def run(cmd, **kw):
-    return subprocess.run(cmd, stdout=subprocess.PIPE, stderr=subprocess.STDOUT, text=True, **kw)
+    return subprocess.run(cmd, stdout=subprocess.PIPE, stderr=subprocess.STDOUT, text=True, errors='replace', **kw)
 
 
 def main():
@@ -104,9 +104,11 @@ def main():
             if not a.keep:
                 shutil.rmtree(scratch, ignore_errors=True)
             run(['git', '-C', REPO, 'worktree', 'prune'])
-    os.makedirs(os.path.join(ROOT, 'out'), exist_ok=True)
-    with open(os.path.join(ROOT, 'out', 'selftest_mutants.json'), 'w') as f:
-        json.dump(results, f, indent=1)
+    os.makedirs(os.path.join(ROOT, 'audit'), exist_ok=True)
+    head = run(['git', '-C', REPO, 'rev-parse', '--short', 'HEAD']).stdout.strip()
+    if not a.only:
+        with open(os.path.join(ROOT, 'audit', 'selftest_mutants.json'), 'w') as f:
+            json.dump({'repo_commit': head, 'results': results}, f, indent=1)
     return 0 if ok_all else 1
 
 
